@@ -1632,10 +1632,16 @@ type logRecorder struct {
 	mu       sync.Mutex
 	closedAt atomic.Int64
 	late     []string
+	// onFirst, when set, is called once, on the first record (the first tick reporting)
+	onFirst func()
+	first   atomic.Bool
 }
 
 func (l *logRecorder) Enabled(context.Context, slog.Level) bool { return true }
 func (l *logRecorder) Handle(_ context.Context, r slog.Record) error {
+	if l.onFirst != nil && l.first.CompareAndSwap(false, true) {
+		l.onFirst()
+	}
 	if c := l.closedAt.Load(); c != 0 && time.Now().UnixNano() > c {
 		l.mu.Lock()
 		var attrs []string
@@ -2022,4 +2028,38 @@ func runC20(seed int64, n int, long bool) {
 		count("failed_tick_not_provoked") // the tick got through before the lock: nothing learnt
 	}
 	bgD.finish(135 * time.Second)
+	if len(sum.Failures) > 0 {
+		return
+	}
+	// Close called WHILE a tick is at work (the tick's own log record is the signal): the
+	// reclamation must not come back a period later on the closed handle
+	rec2 := &logRecorder{}
+	var hd *redka.DB
+	closed := make(chan struct{})
+	rec2.onFirst = func() {
+		// (called from inside the tick, which is about to finish: Close returns before the tick does)
+		_ = hd.Close()
+		rec2.closedAt.Store(time.Now().Add(5 * time.Second).UnixNano()) // (what the tick in flight still says is its own business)
+		close(closed)
+	}
+	hd, err = redka.Open(filepath.Join(dir, "closed-during-a-tick.db"), &redka.Options{Logger: slog.New(rec2)})
+	if err != nil {
+		fail("harness", err.Error(), nil)
+		return
+	}
+	for i := 0; i < 400; i++ {
+		_ = hd.Str().SetExpires(fmt.Sprintf("t%d", i), "v", time.Millisecond)
+	}
+	select {
+	case <-closed:
+		time.Sleep(70 * time.Second) // one more period
+		sum.Cases++
+		if msgs := rec2.after(); len(msgs) > 0 {
+			fail("c20-close", fmt.Sprintf("a handle closed while a tick was at work kept running its reclamation: %d log records more than 5 s after Close, e.g. %s", len(msgs), msgs[0]), nil)
+		}
+		count("closed_during_a_tick_observed")
+	case <-time.After(75 * time.Second):
+		_ = hd.Close()
+		count("tick_did_not_report") // the tick logs nothing on this build: nothing learnt
+	}
 }
